@@ -1,20 +1,22 @@
 #!/bin/bash
-# run_seeds.sh [pattern]: apply every stored seeded change to /repo, run the quick check of the property it breaks,
-# undo it, and record whether the check reported a violation.  Writes seeded/RESULTS.tsv
+# run_seeds.sh [pattern] : try every stored seeded change (seeded/<id>/patch.diff) on a scratch worktree of /repo's HEAD with
+# the quick check of the property it breaks, and record whether the check reported a violation.  /repo is not touched.
+# Writes seeded/RESULTS.tsv (sorted).  PAR=<n> trials at once (default 3).
 cd /verif
-OUT=seeded/RESULTS.tsv
-: > $OUT
-for d in seeded/${1:-C*}; do
-  [ -f $d/patch.diff ] || continue
-  id=$(basename $d); prop=${id%_*}
-  if [ -n "$(git -C /repo status --porcelain --untracked-files=no)" ]; then echo "repo dirty"; exit 9; fi
-  git -C /repo apply /verif/$d/patch.diff || { echo -e "$id\t$prop\tAPPLY-FAILED" >> $OUT; continue; }
-  ./check $prop --no-evidence > /tmp/seedrun_$id.log 2>&1; code=$?
-  git -C /repo checkout -- .
-  nviol=$(grep -c "^VIOLATION" /tmp/seedrun_$id.log)
-  nconf=$(grep "^VIOLATION" /tmp/seedrun_$id.log | grep -vc "no-failing-input-found")
-  first=$(grep "^VIOLATION" /tmp/seedrun_$id.log | head -1 | sed 's/.*replay=replays\/[A-Z0-9]*\///' | cut -c1-110)
-  echo -e "$id\t$prop\texit=$code\tviolations=$nviol\tnatively_confirmed=$nconf\t$first" >> $OUT
-  echo "$id exit=$code violations=$nviol confirmed=$nconf"
-done
-rm -rf replays
+one() {
+  d=$1; id=$(basename $d); prop=${id%_*}
+  W=$(mktemp -d /tmp/trial.XXXXXX)
+  git -C /repo worktree add --detach "$W/wt" HEAD >/dev/null 2>&1
+  if ! git -C "$W/wt" apply /verif/$d/patch.diff 2>/dev/null; then
+    echo -e "$id\t$prop\tAPPLY-FAILED"; git -C /repo worktree remove --force "$W/wt"; rm -rf "$W"; return
+  fi
+  OASVERIF_REPO="$W/wt" OASVERIF_REPLAY_DIR="$W/replays" ./check $prop --no-evidence > "$W/log" 2>&1; code=$?
+  nviol=$(grep -c "^VIOLATION" "$W/log")
+  nconf=$(grep "^VIOLATION" "$W/log" | grep -vc "no-failing-input-found")
+  first=$(grep "^VIOLATION" "$W/log" | head -1 | sed 's/.*replay=[^ ]*replays\/[A-Z0-9]*\///' | cut -c1-110)
+  echo -e "$id\t$prop\texit=$code\tviolations=$nviol\tnatively_confirmed=$nconf\t$first"
+  git -C /repo worktree remove --force "$W/wt"; rm -rf "$W"
+}
+export -f one
+ls -d seeded/${1:-C*} | while read d; do [ -f $d/patch.diff ] && echo $d; done | xargs -P ${PAR:-3} -I{} bash -c 'one {}' | tee /dev/stderr | sort > seeded/RESULTS.tsv.new
+mv seeded/RESULTS.tsv.new seeded/RESULTS.tsv
